@@ -371,7 +371,7 @@ def failing_cases(sr, kind):
     # "direct" observations: decided by the harness itself (watchdog expiry, race report,
     # process death ...), not by evaluating a model; listed with their readable form.
     direct = sr["meta"].get("direct") or {}
-    for i, rd in enumerate(direct.get("failures" if kind == "propfail" else "mismatches", [])):
+    for i, rd in enumerate(direct.get("failures" if kind == "propfail" else "mismatches") or []):
         out.append((10 ** 9 + i, rd))
     for r in sr["results"]:
         if "error" in r:
